@@ -9,6 +9,7 @@ impl CompressionMethod {
 //@item src/compression.rs | impl CompressionMethod | const AES
 }
 //@item src/types.rs | enum System
+//@item src/types.rs | const DEFAULT_VERSION
 //@item src/types.rs | struct DateTime
 //@item src/types.rs | struct AtomicU64
 //@impl src/types.rs | impl AtomicU64
